@@ -10,7 +10,7 @@ use chia_consensus::build_interned_block::InternedBlockBuilder;
 use chia_consensus::consensus_constants::TEST_CONSTANTS;
 use chia_consensus::flags::{ConsensusFlags, MEMPOOL_MODE};
 use chia_consensus::owned_conditions::OwnedSpendBundleConditions;
-use chia_consensus::run_block_generator::run_block_generator2;
+use chia_consensus::run_block_generator::{run_block_generator, run_block_generator2};
 use chia_consensus::solution_generator::{calculate_generator_length, solution_generator, solution_generator_backrefs};
 use chia_consensus::spendbundle_conditions::run_spendbundle;
 use chia_protocol::{Coin, CoinSpend, Program, SpendBundle};
@@ -98,6 +98,14 @@ pub fn bundles() -> Vec<(String, SpendBundle)> {
     }
     // a spend whose own assertion fails (rejected everywhere)
     v.push(("wrong-my-amount".into(), SpendBundle::new(vec![spend(1, 1000, solution_for(999, 1))], Signature::default())));
+    // a second spend that declares the first one's puzzle hash but reveals another program: (q . ()) - rejected everywhere, in either order
+    {
+        let ph = clvm_utils::tree_hash_atom(&[1u8]).to_bytes();
+        let forged = |parent: u8| CoinSpend::new(Coin::new([parent; 32].into(), ph.into(), 1000), Program::new(vec![0xffu8, 0x01, 0x80].into()), vec![0x80u8].into());
+        v.push(("forged-second-reveal".into(), SpendBundle::new(vec![spend(1, 1000, solution_for(1000, 10)), forged(2)], Signature::default())));
+        v.push(("forged-first-reveal".into(), SpendBundle::new(vec![forged(2), spend(1, 1000, solution_for(1000, 10))], Signature::default())));
+        v.push(("forged-third-reveal".into(), SpendBundle::new(vec![spend(1, 1000, solution_for(1000, 10)), spend(3, 1000, solution_for(1000, 10)), forged(2)], Signature::default())));
+    }
     // minting (rejected everywhere)
     v.push(("minting".into(), SpendBundle::new(vec![spend(1, 1000, solution_for(1000, 1001))], Signature::default())));
     v
@@ -144,12 +152,24 @@ pub fn check_bundle(name: &str, b: &SpendBundle, interned: bool) -> (u64, Vec<(S
     }
     // verdicts the rules prescribe for the mempool path
     for (bn, want) in [("spends-6000", true), ("spends-6001", false), ("amount-0x8000000000000000", true), ("amount-0xffffffffffffffff", true),
-                       ("two-spends", true), ("wrong-my-amount", false), ("minting", false), ("empty", true),
+                       ("two-spends", true), ("wrong-my-amount", false), ("forged-second-reveal", false), ("forged-first-reveal", false), ("forged-third-reveal", false), ("minting", false), ("empty", true),
                        ("last-generic", true), ("last-aggsig", true), ("last-message", true), ("last-create-coin", true)] {
         if name == bn {
             n += 1;
             if mem.is_ok() != want { fails.push((format!("{name}/{tag}/mempool-verdict"), format!("run_spendbundle accepted = {}, the rules say {want}", mem.is_ok()))); }
         }
+    }
+    // C02: every reported spend is the coin (parent, tree hash of the REVEALED puzzle, amount) of one coin spend of the bundle
+    if let Ok(m) = &mem {
+        n += 1;
+        let mut want: Vec<(Vec<u8>, Vec<u8>, u64)> = b.coin_spends.iter().map(|cs| {
+            let mut a3 = make_allocator(ConsensusFlags::LIMIT_HEAP);
+            let ph: [u8; 32] = match clvmr::serde::node_from_bytes(&mut a3, cs.puzzle_reveal.as_slice()) { Ok(p) => clvm_utils::tree_hash(&a3, p).to_bytes(), Err(_) => [0xee; 32] };
+            (Coin::new(cs.coin.parent_coin_info, ph.into(), cs.coin.amount).coin_id().to_vec(), ph.to_vec(), cs.coin.amount)
+        }).collect();
+        let mut got: Vec<(Vec<u8>, Vec<u8>, u64)> = m.spends.iter().map(|s| (s.coin_id.to_vec(), s.puzzle_hash.to_vec(), s.coin_amount)).collect();
+        want.sort(); got.sort();
+        if want != got { fails.push((format!("{name}/{tag}/spend-identity"), "the reported (coin id, puzzle hash, amount) triples are not those of the revealed puzzles".to_string())); }
     }
     // C04: the limit is exact - a budget equal to the cost passes, one less fails - on both paths
     if let Ok(m) = &mem {
@@ -176,10 +196,25 @@ pub fn check_bundle(name: &str, b: &SpendBundle, interned: bool) -> (u64, Vec<(S
                         fails.push((format!("{name}/{tag}{fl_name}/block-exact-limit"), format!("cost {c2}: with a budget of exactly {c2} run_block_generator2 gives {:?}; with {} it accepts = {below2}", at2.map_err(|e| format!("{e:?}")), c2 - 1)));
                     }
                 }
+                // the legacy driver (generator run through the ROM, conditions parsed afterwards) shares the one budget the same way
+                if !interned {
+                    if let Ok((_, k)) = run_block_generator(&g, blocks, max, fl, &Signature::default(), None, &TEST_CONSTANTS) {
+                        n += 1;
+                        let c3 = k.cost;
+                        let at3 = run_block_generator(&g, blocks, c3, fl, &Signature::default(), None, &TEST_CONSTANTS).map(|x| x.1.cost);
+                        let below3 = run_block_generator(&g, blocks, c3 - 1, fl, &Signature::default(), None, &TEST_CONSTANTS).is_ok();
+                        if at3.as_ref().ok() != Some(&c3) || below3 {
+                            fails.push((format!("{name}/{tag}{fl_name}/legacy-exact-limit"), format!("cost {c3}: with a budget of exactly {c3} run_block_generator gives {:?}; with {} it accepts = {below3}", at3.map_err(|e| format!("{e:?}")), c3 - 1)));
+                        }
+                    }
+                }
             }
         }
     }
+    // (a generator carries parent, puzzle, amount, solution - not the declared puzzle hash - so a bundle whose declared hash is wrong has no
+    // block-path counterpart: the comparison is skipped for those)
     for (gname, g) in &gens {
+        if name.starts_with("forged-") { continue; }
         n += 1;
         let blk = run_block_generator2(g, blocks, max, flags, &Signature::default(), None, &TEST_CONSTANTS).map(|(a2, c)| OwnedSpendBundleConditions::from(&a2, c));
         let id = format!("{name}/{tag}/{gname}");
